@@ -400,6 +400,22 @@ func runScript(p Plan, res *runResult) {
 			}
 		})
 		inj.armed.Store(false)
+		if res.getErr() == nil {
+			// Every writer and the manager are closed. Give every timer a
+			// virtual minute and let the bubble settle: nothing can release a
+			// sync waiter any more. A waiter that is still pending was dropped
+			// by the implementation (its committer would hang forever).
+			time.Sleep(time.Minute)
+			synctest.Wait()
+			for _, w := range s.wals {
+				for _, r := range w.recs {
+					if r.sync && r.ack.Load() == 0 {
+						emitViolationAndExit(p, fmt.Errorf("WAL %06d record #%d (seq %d, %d bytes) was written with a sync request; Writer.Close and Manager.Close have returned and the system is idle, but its sync waiter was never released (neither acknowledged nor failed): %d records were written to this WAL",
+							w.num, r.idx, r.seq, len(r.data), len(w.recs)))
+					}
+				}
+			}
+		}
 		waiters.Wait()
 	}
 	defer func() {
@@ -413,7 +429,7 @@ func runScript(p Plan, res *runResult) {
 		finish()
 		return
 	}
-	for si, st := range p.Steps {
+	for si, st := range expandSteps(p.Steps) {
 		switch st.Op {
 		case OpWrite:
 			r := &mrec{idx: len(cur.recs), seq: nextSeq, count: uint32(st.Count), sync: st.Sync}
